@@ -259,18 +259,24 @@ def enc_call(c):
         return "compile.%d.%s" % (c[1], "N" if c[2] is None else ",".join("%d:%d" % kv for kv in c[2]))
     if c[0] == "load":
         return "load.%d.%d" % (c[1], 1 if c[2] else 0)
+    if c[0] == "edit":
+        return "edit.%d" % c[1]
     raise ValueError(c)
 
 
 def encode(case, cfg, picks=(), phases=()):
     lists = ";".join(_optints(l) for l in case["lists"]) if case["lists"] else "N"
+    alts = ""
+    if case.get("alts"):
+        # later versions of the circuit object (in-place edits between calls, see the call `edit.<v>`)
+        alts = " alts=" + "|".join((";".join(enc_op(o) for o in ops) if ops else "N") for ops in case["alts"])
     return ("hist cfg=%s mode=%s n=%d ncb=%d ops=%s lists=%s rng=%s inits=%s phases=%s calls=%s" % (
         cfg_str(cfg), case["mode"], case["n"], case["ncb"],
         ";".join(enc_op(o) for o in case["ops"]) if case["ops"] else "N",
         lists, _ints(picks) if len(picks) else "N",
         "/".join(enc_state(s) for s in case["inits"]) if case["inits"] else "N",
         _ints(phases) if len(phases) else "N",
-        "/".join(enc_call(c) for c in case["calls"]) if case["calls"] else "N"))
+        "/".join(enc_call(c) for c in case["calls"]) if case["calls"] else "N")) + alts
 
 
 # ------------------------------------------------------------------------------------------
@@ -329,6 +335,8 @@ def parse_answer(line):
             chunks.append({"kind": "G", "state": _p_state(f[1])})
         elif f[0] == "Q":
             chunks.append({"kind": "Q"})
+        elif f[0] == "X":
+            chunks.append({"kind": "X"})
         elif f[0].startswith("C"):
             chunks.append({"kind": "C", "tok": f[0][1:]})
         else:
@@ -383,6 +391,37 @@ def build_circuit(case):
         else:
             qc.add_measurement("M", targets=[op["m"]], classical_store=op["store"])
     return qc
+
+
+def versions_of(case):
+    return [case["ops"]] + list(case.get("alts") or [])
+
+
+def apply_edit(qc, cur_ops, new_ops, how):
+    """edit the circuit object IN PLACE so that it reads `new_ops` (same number of operations): `assign` re-assigns
+    targets / controls of the gate object where the gate keeps its name, otherwise (and with `replace`) the operation
+    is removed and a new one added at the same position through the public API"""
+    for i, (a, b) in enumerate(zip(cur_ops, new_ops)):
+        if a == b:
+            continue
+        if how == "assign" and "g" in a and "g" in b and a["g"] == b["g"] and a["cc"] == b["cc"] and a["ccv"] == b["ccv"]:
+            nc = NCTRL[b["g"]]
+            g = qc.gates[i]
+            g.targets = list(b["q"][nc:])
+            if nc:
+                g.controls = list(b["q"][:nc])
+            continue
+        qc.remove_gate_or_measurement(index=i)
+        if "g" in b:
+            nc = NCTRL[b["g"]]
+            kw = {}
+            if b["cc"] is not None:
+                kw["classical_controls"] = list(b["cc"])
+                kw["classical_control_value"] = b["ccv"]
+            qc.add_gate(GATE_NAMES[b["g"]], targets=list(b["q"][nc:]), controls=(list(b["q"][:nc]) if nc else None),
+                        index=[i], **kw)
+        else:
+            qc.add_measurement("M", targets=[b["m"]], classical_store=b["store"], index=[i])
 
 
 def init_qobj(st, n, mode):
@@ -524,7 +563,8 @@ def run_impl(case, rng, qc=None, observer=None, handlers=None):
     am = AliasMap(lists)
     chunks = []
     seen_lists = {}
-    objs = {"lists": lists, "sim": sim, "qc": qc, "inits": inits}
+    objs = {"lists": lists, "sim": sim, "qc": qc, "inits": inits, "ops": case["ops"]}
+    versions = versions_of(case)
     with Instrument(rng, track=sim) as inst:
         for j, c in enumerate(case["calls"]):
             if observer:
@@ -559,6 +599,10 @@ def run_impl(case, rng, qc=None, observer=None, handlers=None):
                     chunks.append({"kind": "S", "events": inst.take()})
                 elif c[0] == "state":
                     chunks.append({"kind": "G", "state": qobj_np(sim.state)})
+                elif c[0] == "edit":
+                    apply_edit(qc, objs["ops"], versions[c[1]], c[2] if len(c) > 2 else "replace")
+                    objs["ops"] = versions[c[1]]
+                    chunks.append({"kind": "X"})
                 else:
                     raise ValueError("call " + str(c))
             except Exception as e:
@@ -611,7 +655,7 @@ def compare(case, model, impl):
     _, mch, mw = model
     _, ich, iw, _picks, _objs = impl
     mode = case["mode"]
-    exact = all(("g" not in o) or o["g"] != 4 for o in case["ops"]) and all(
+    exact = all(("g" not in o) or o["g"] != 4 for ops in versions_of(case) for o in ops) and all(
         sum(1 for v in s["vecs"] for a in v if a != 0) == 1 for s in case["inits"])
     rm = RefMap(len(case["lists"]))
     final_model = {}
